@@ -943,4 +943,5 @@ func run(cx *lib.Ctx) {
 	for i := 0; i < n; i++ {
 		runCase(cx, cx.R.U64(), i < 1)
 	}
+	corrBody(cx)
 }
